@@ -32,6 +32,44 @@ const sdpH265 = "v=0\r\no=- 0 0 IN IP4 127.0.0.1\r\ns=t\r\nc=IN IP4 127.0.0.1\r\
 	"a=fmtp:97 profile-level-id=1;mode=AAC-hbr;sizelength=13;indexlength=3;indexdeltalength=3; config=121056E500\r\n" +
 	"a=control:streamid=1\r\n"
 
+// the same streams with G.711 audio (raw samples: the first payload byte is arbitrary, no depacketizer)
+var sdpH264PCMA = sdpH264[:strings.Index(sdpH264, "m=audio")] +
+	"m=audio 0 RTP/AVP 8\r\na=rtpmap:8 PCMA/8000\r\na=control:streamid=1\r\n"
+var sdpH265PCMA = sdpH265[:strings.Index(sdpH265, "m=audio")] +
+	"m=audio 0 RTP/AVP 8\r\na=rtpmap:8 PCMA/8000\r\na=control:streamid=1\r\n"
+
+// MakeRaw builds the packet of a case entry (id _ channel payload): the given bytes after a 12-byte RTP
+// header, on the given channel (0 video, 1 video RTCP, 2 audio, 3 audio RTCP).  The id is read back by idOf
+// from payload[1..4], where the generator put it.
+func MakeRaw(id int64, ch int64, payload []byte) *rtp.Packet {
+	d := make([]byte, 12+len(payload))
+	d[0] = 0x80
+	d[1] = 96
+	if ch == int64(rtp.ChannelAudio) {
+		d[1] = 8
+	}
+	d[2], d[3] = byte(id>>8), byte(id)
+	copy(d[12:], payload)
+	pk := &rtp.Packet{Channel: byte(ch), Data: d}
+	if ch == int64(rtp.ChannelVideo) || ch == int64(rtp.ChannelAudio) {
+		if err := pk.Header.Unmarshal(pk.Data); err != nil {
+			panic(err)
+		}
+	}
+	if len(payload) < 5 || idOf(pk) != id {
+		panic("lts: raw packet does not carry its id in payload[1..4]")
+	}
+	return pk
+}
+
+// packetOf builds the packet of one case entry: (id kind) or (id _ channel payload)
+func packetOf(pv Val) *rtp.Packet {
+	if len(pv.List()) >= 4 {
+		return MakeRaw(pv.At(0).Int(), pv.At(2).Int(), pv.At(3).Bytes())
+	}
+	return MakePacket(pv.At(0).Int(), pv.At(1).Int())
+}
+
 // recording consumer
 type rec struct {
 	mu      sync.Mutex
@@ -218,6 +256,12 @@ func Run(c Val) Val {
 	if h265 {
 		sdpText = sdpH265
 	}
+	if c.At(12).Bool() { // G.711 audio instead of AAC
+		sdpText = sdpH264PCMA
+		if h265 {
+			sdpText = sdpH265PCMA
+		}
+	}
 	s := media.NewStream("/lts/"+strconv.Itoa(n), sdpText)
 	ctl.Settle()
 	recs := make([]*rec, n)
@@ -246,8 +290,12 @@ func Run(c Val) Val {
 	}
 	pkts := c.At(4).List()
 	kindOf := map[int64]int64{}
+	rawOf := map[int64]Val{}
 	for _, pv := range pkts {
 		kindOf[pv.At(0).Int()] = pv.At(1).Int()
+		if len(pv.List()) >= 4 {
+			rawOf[pv.At(0).Int()] = pv
+		}
 	}
 	remaining := len(pkts)
 	ctl.Go("pub", func() {
@@ -255,7 +303,7 @@ func Run(c Val) Val {
 			if flvMode {
 				s.WriteFlvTag(MakeTag(pv.At(0).Int(), pv.At(1).Int()))
 			} else {
-				s.WriteRtpPacket(MakePacket(pv.At(0).Int(), pv.At(1).Int()))
+				s.WriteRtpPacket(packetOf(pv))
 			}
 			remaining--
 			ctl.Here("h.pub")
@@ -359,7 +407,12 @@ func Run(c Val) Val {
 		for j, id := range r.out {
 			outs[j] = I(id)
 			// byte identity: the delivered packet hashes like the packet that was published under that id
-			odata := MakePacket(id, kindOf[id]).Data
+			var odata []byte
+			if rv, ok := rawOf[id]; ok && !flvMode {
+				odata = packetOf(rv).Data
+			} else if !flvMode {
+				odata = MakePacket(id, kindOf[id]).Data
+			}
 			if flvMode {
 				tg := MakeTag(id, kindOf[id])
 				odata = append([]byte{tg.TagType}, tg.Data...)
